@@ -459,6 +459,7 @@ func Shrink(c *Case, class string, fails func(*Case) string) *Case {
 // exercised by such sets.)
 func WideCases(mutation bool, perShape int) []*Case {
 	shapes := []string{
+		"{a:i b:[{k:i l:i}] c:i}", // (not wide) a selection set applied to two list items: collected once
 		"{a:i b:i c:i d:i e:i}",
 		"{a:i b:i c:i d:i e:i f:i g:i}",
 		"{a:{x:i} b:i c:i d:{y:i z:i} e:{u:i v:i} f:i}",
